@@ -1,7 +1,7 @@
 """Engine F: structural tables and sibling agreement (HIR + MIR pattern rules, no text matching)."""
 import re
 from .core import RuleResult
-from .facts import term_str, targs, walk_hir
+from .facts import term_str, targs, walk_hir, norm_path
 from .callgraph import ty_head
 from . import guard as G
 
@@ -297,6 +297,70 @@ TOKENIZERS = {"diff_lines": ("tokenize_lines", "true"), "diff_words": ("tokenize
               "diff_graphemes": ("tokenize_graphemes", "false")}
 
 
+def _local_callees(prog, fn, depth=2, seen=None):
+    """Local functions (with HIR) called from `fn`, transitively up to `depth` levels."""
+    seen = set() if seen is None else seen
+    out = []
+    if depth <= 0 or not fn.hir:
+        return out
+    for n in find_nodes(fn.hir["body"], lambda n: n["k"] in ("call", "mcall")):
+        if n["k"] == "mcall":
+            path = n.get("method") or ""
+        else:
+            f = unwrap(n["f"])
+            path = (f.get("res") or {}).get("path", "") if isinstance(f, dict) and f.get("k") == "path" else ""
+        g = prog.fn(path)
+        if g is None:
+            cands = prog.find(path) if path else []
+            g = cands[0] if len(cands) == 1 else None
+        if g is None or not g.hir or g.path in seen or g.path == fn.path:
+            continue
+        seen.add(g.path)
+        out.append(g)
+        out += _local_callees(prog, g, depth - 1, seen)
+    return out
+
+
+def _through_helper(prog, fn, pred):
+    """`fn` delegates to one private helper that makes the one call matching `pred`: the arguments of that inner call,
+    as origins, with the helper's parameters replaced by what `fn` passes for them.  None if the shape is different."""
+    outer = []
+    for n in find_nodes(fn.hir["body"], lambda n: n["k"] in ("call", "mcall")):
+        if n["k"] == "mcall":
+            path = n.get("method") or ""
+            args = [n["recv"]] + list(n["args"])
+        else:
+            f = unwrap(n["f"])
+            path = (f.get("res") or {}).get("path", "") if isinstance(f, dict) and f.get("k") == "path" else ""
+            args = list(n["args"])
+        g = prog.fn(path)
+        if g is None and path:
+            cands = [c for c in prog.find(path) if c.hir]
+            g = cands[0] if len(cands) == 1 else None
+        if g is None or not g.hir or g.path == fn.path:
+            continue
+        inner = find_nodes(g.hir["body"], pred)
+        if len(inner) == 1:
+            outer.append((g, args, inner[0]))
+    if len(outer) != 1:
+        return None
+    g, args, inner = outer[0]
+    lets_f = _lets(fn)
+    amap = {}
+    for pp, a in zip(g.hir["params"], args):
+        nm = pp["pat"].get("name")
+        if nm and nm != "self":
+            amap[nm] = origin_deep(a, lets_f)
+    lets_g = _lets(g)
+    out = []
+    for x in inner["args"]:
+        o = origin_deep(x, lets_g)
+        if amap:
+            o = re.sub(r"(?<![\w.])(%s)\b" % "|".join(re.escape(k) for k in amap), lambda mm: amap[mm.group(1)], o)
+        out.append(o)
+    return out
+
+
 def rule_F2(prog):
     r = RuleResult("F2", "text wiring: every TextDiffConfig::diff_X tokenizes old and new with the same tokenize_X (old "
                          "first), passes newline_terminated=true only for lines; TextDiffConfig::diff stores the token "
@@ -317,9 +381,16 @@ def rule_F2(prog):
         calls = find_nodes(fn.hir["body"], lambda n: n["k"] == "mcall" and n["name"] == "diff" and n.get("local"))
         ok = False
         got = "no call to self.diff"
+        a = None
         if len(calls) == 1:
             lets = _lets(fn)
             a = [origin_deep(x, lets) for x in calls[0]["args"]]
+        elif not calls:
+            a = _through_helper(prog, fn, lambda n: n["k"] == "mcall" and n["name"] == "diff" and n.get("local"))
+            if a is not None:
+                # `tokenize(x)` with tokenize = DiffableStr::tokenize_lines  ==  x.tokenize_lines()
+                a = [re.sub(r"^(?:\w+::)*(tokenize_\w+)\((.*)\)$", r"\2.\1()", x) for x in a]
+        if a is not None:
             got = "self.diff(%s)" % ", ".join(a)
             pat = r"^%s(\.as_diffable_str\(\))?\.%s\(\)$"
             ok = len(a) == 3 and re.match(pat % ("old", tok), a[0]) is not None and \
@@ -364,15 +435,20 @@ def rule_F2(prog):
         if len(lits) != 1:
             problems.append("%d TextDiff literals" % len(lits))
         else:
+            lets = _lets(fn)
             f = {x["name"]: origin(x["e"]) for x in lits[0]["fields"]}
+            fd = {x["name"]: origin_deep(x["e"], lets) for x in lits[0]["fields"]}
             want = {"old": "old", "new": "new", "ops": "ops", "algorithm": "self.algorithm",
                     "newline_terminated": "self.newline_terminated.unwrap_or(newline_terminated)"}
             for k, v in want.items():
-                if f.get(k) != v:
+                if f.get(k) != v and (k in ("old", "new", "ops") or fd.get(k) != v):
                     problems.append("field %s = %s (required %s)" % (k, f.get(k), v))
-        caps = find_nodes(fn.hir["body"], lambda n: n["k"] == "call" and origin(n["f"]).endswith("capture_diff_deadline"))
-        if len(caps) < 2:
-            problems.append("%d capture_diff_deadline calls (two size branches expected)" % len(caps))
+        # the capture calls may sit in a private helper method of the config (`self.capture_ops(&old, &new)`)
+        caps = []
+        for body in [fn.hir["body"]] + [g.hir["body"] for g in _local_callees(prog, fn)]:
+            caps += find_nodes(body, lambda n: n["k"] == "call" and origin(n["f"]).endswith("capture_diff_deadline"))
+        if len(caps) < 1:
+            problems.append("%d capture_diff_deadline calls" % len(caps))
         for c in caps:
             a = [origin(x) for x in c["args"]]
             if not a or a[0] != "self.algorithm":
@@ -447,33 +523,65 @@ def _inline_local_calls(node, prog, depth=0):
     return out
 
 
+def _optionness(e, lets, depth=0):
+    """'some' / 'none' / '?' for an Option-typed expression, looking through lets, blocks and agreeing if-branches."""
+    e = unwrap(e)
+    if not isinstance(e, dict) or depth > 8:
+        return "?"
+    k = e.get("k")
+    if k == "path" and e.get("res", {}).get("k") == "local" and e["res"]["id"] in lets:
+        return _optionness(lets[e["res"]["id"]], lets, depth + 1)
+    if k == "block" and e["b"].get("expr"):
+        return _optionness(e["b"]["expr"], lets, depth + 1)
+    if k == "if" and e.get("f"):
+        a, b = _optionness(e["t"], lets, depth + 1), _optionness(e["f"], lets, depth + 1)
+        return a if a == b else "?"
+    o = origin(e)
+    if o.startswith(("Option::Some(", "Some(")):
+        return "some"
+    if o in ("Option::None", "None"):
+        return "none"
+    return "?"
+
+
+def _lit_record(lit, scope, lets):
+    f = {x["name"]: x["e"] for x in lit["fields"]}
+    oi, ni = _optionness(f.get("old_index"), lets), _optionness(f.get("new_index"), lets)
+    return {"tag": tag_of(f.get("tag")), "old_some": oi == "some", "old_none": oi == "none",
+            "new_some": ni == "some", "new_none": ni == "none",
+            "old_src": origin_deep(f.get("old_index"), lets), "new_src": origin_deep(f.get("new_index"), lets),
+            "line": lit["line"], "node": lit, "scope": scope}
+
+
+def _scope_lets(scope):
+    lets = {}
+    for st in find_nodes(scope, lambda n: n.get("k") == "let" and isinstance(n.get("pat"), dict) and n["pat"].get("k") == "bind"):
+        if st.get("init"):
+            lets[st["pat"]["id"]] = st["init"]
+    lets.update(_tuple_lets(scope))
+    return lets
+
+
 def _change_literals(node, binds=None, prog=None):
-    """Change / InlineChange struct literals below node, in source order:
-    (tag, old_index is Some, new_index is Some, value side).  Private helpers called below `node` are looked into."""
+    """Change / InlineChange struct literals below node, in source order, as records (tag, old_index is Some, new_index
+    is Some, ...).  Private helpers called below `node` are looked into, each specialised for the tag / bool constants
+    that call passes (`self.advance_old(ChangeTag::Delete, false)`)."""
     out = []
-    scopes = [(node, node)]
+    scopes = [node]
     if prog is not None:
-        calls = find_nodes(node, lambda n: n["k"] in ("mcall", "call"))
-        for call in calls:
-            path = call.get("method") if call["k"] == "mcall" else ((call["f"].get("res") or {}).get("path") if call["f"].get("k") == "path" else None)
-            g = prog.fn(path) if path else None
+        for call in find_nodes(node, lambda n: n["k"] in ("mcall", "call")):
+            g, args = _call_target(prog, call)
             if g is not None and g.hir and g.hir.get("body") and not g.public and g.kind != "Closure":
-                scopes.append((g.hir["body"], g.hir["body"]))
-    seen_ids = set()
-    for scope, _ in scopes:
-      for lit in find_nodes(scope, lambda n: n["k"] == "struct" and n.get("adt") in ("types::Change", "text::inline::InlineChange")):
-        if (id(scope), lit["id"]) in seen_ids:
-            continue
-        seen_ids.add((id(scope), lit["id"]))
-        lit = dict(lit)
-        lit["_scope"] = scope
-        f = {x["name"]: x["e"] for x in lit["fields"]}
-        tag = tag_of(f.get("tag"))
-        oi = origin(f.get("old_index"))
-        ni = origin(f.get("new_index"))
-        out.append({"tag": tag, "old_some": oi.startswith(("Option::Some(", "Some(")), "old_none": oi in ("Option::None", "None"),
-                    "new_some": ni.startswith(("Option::Some(", "Some(")), "new_none": ni in ("Option::None", "None"),
-                    "old_src": oi, "new_src": ni, "line": lit["line"], "node": lit, "scope": lit.get("_scope")})
+                consts = _call_consts(g, args)
+                scopes.append(_specialise(g.hir["body"], {}, {}, consts) if consts else g.hir["body"])
+    for scope in scopes:
+        lets = _scope_lets(scope)
+        seen_ids = set()
+        for lit in find_nodes(scope, lambda n: n["k"] == "struct" and n.get("adt") in ("types::Change", "text::inline::InlineChange")):
+            if lit["id"] in seen_ids:
+                continue
+            seen_ids.add(lit["id"])
+            out.append(_lit_record(lit, scope, lets))
     return out
 
 
@@ -493,7 +601,24 @@ def rule_F4(prog):
         vals = {}
         for st in find_nodes(fn.hir["body"], lambda n_: n_.get("k") == "let"):
             pass
+        expanded = []
+        pids = {pp["pat"]["id"] for pp in fn.hir["params"] if pp["pat"].get("k") == "bind"}
         for lit in lits:
+            tf = unwrap({x["name"]: x["e"] for x in lit["node"]["fields"]}.get("tag"))
+            if lit["tag"] is None and isinstance(tf, dict) and tf.get("k") == "path" and tf.get("res", {}).get("k") == "local" \
+                    and tf["res"]["id"] in pids:
+                # the tag is a parameter of a private helper: check the literal once per set of constants the callers
+                # pass, in the body specialised for them (`match tag { Insert => (None, i), _ => (i, None) }`)
+                ctxs = [c for c in _caller_consts(prog, fn) if tf["res"]["id"] in c]
+                if ctxs and len(ctxs) == len(_caller_consts(prog, fn)):
+                    for consts in ctxs:
+                        body = _specialise(fn.hir["body"], {}, {}, consts)
+                        for l2 in _change_literals(body):
+                            if l2["node"]["id"] == lit["node"]["id"]:
+                                expanded.append(l2)
+                    continue
+            expanded.append(lit)
+        for lit in expanded:
             n += 1
             r.instances += 1
             tag = lit["tag"]
@@ -685,6 +810,11 @@ def rule_F3(prog):
                 for t in tups:
                     tg = tag_of(t["es"][0])
                     x = unwrap(t["es"][1])
+                    hops = 0
+                    while isinstance(x, dict) and x.get("k") == "path" and x.get("res", {}).get("k") == "local" and \
+                            x["res"]["id"] in fn_lets and hops < 5:
+                        x = unwrap(fn_lets[x["res"]["id"]])      # `let deleted = self.old.slice(..); (Delete, deleted)`
+                        hops += 1
                     side = None
                     rng = None
                     if isinstance(x, dict) and x.get("k") == "index":
@@ -899,41 +1029,95 @@ def _norm_loop(node, local_ids, expand_lets=True):
     return go(node)
 
 
+def _stmt_sides(st):
+    """Sides a statement talks about, judged by its locals, bindings, fields and `Old`/`New` variant paths."""
+    sides = set()
+
+    def note(nm):
+        if not isinstance(nm, str):
+            return
+        if re.search(r"(?i)(^|_)old(_|$)", nm) or nm == "Old":
+            sides.add("O")
+        if re.search(r"(?i)(^|_)new(_|$)", nm) and nm != "new" or nm == "New":
+            sides.add("N")
+
+    for n in find_nodes(st, lambda n: n.get("k") in ("path", "bind", "field")):
+        if n["k"] == "path":
+            rr = n.get("res", {})
+            if rr.get("k") == "local":
+                note(rr.get("name"))
+                if rr.get("name") == "new":
+                    sides.add("N")
+            elif rr.get("dk", "").startswith("Ctor") or rr.get("dk") == "Variant":
+                note(rr.get("path", "").rsplit("::", 1)[-1])
+        elif n["k"] == "bind":
+            note(n.get("name"))
+            if n.get("name") == "new":
+                sides.add("N")
+        else:
+            note(n.get("name"))
+            if n.get("name") == "new":
+                sides.add("N")
+    return sides
+
+
+def _side_units(fn):
+    """Top-level statements of the body that talk about exactly one side, as (old units, new units, shared ids)."""
+    body = fn.hir["body"]
+    while body.get("k") in ("droptemps",):
+        body = body["x"]
+    blk = body["b"] if body.get("k") == "block" else {"stmts": [], "expr": body}
+    outer = set()
+    olds, news = [], []
+    for st in blk["stmts"]:
+        sides = _stmt_sides(st)
+        if st["k"] == "let":
+            for b in find_nodes(st["pat"], lambda n: n["k"] == "bind"):
+                if not name_is_sided(b.get("name", "")):
+                    outer.add(b["id"])
+        if sides == {"O"}:
+            olds.append(st)
+        elif sides == {"N"}:
+            news.append(st)
+    return olds, news, outer
+
+
+def name_is_sided(nm):
+    return bool(re.search(r"(?i)old|new", nm or ""))
+
+
 def rule_F6(prog):
-    r = RuleResult("F6", "IdentifyDistinct::new treats both sides alike: the old-side and new-side loops are identical up "
-                         "to renaming old<->new, use the same map and the same id counter, and push ids in loop order")
+    r = RuleResult("F6", "IdentifyDistinct::new treats both sides alike: the statements that handle the old side only and "
+                         "those that handle the new side only are identical up to renaming old<->new (same map, same id "
+                         "counter, same order of pushes), and each group consumes its own range parameter")
     fns = prog.find("algorithms::utils::IdentifyDistinct::<Int>::new")
     r.instances = len(fns)
     for fn in fns:
-        loops = find_nodes(fn.hir["body"], lambda n: n["k"] == "match" and n.get("source") == "ForLoopDesugar",
-                           stop=lambda n: n["k"] == "match" and n.get("source") == "ForLoopDesugar")
-        if len(loops) != 2:
-            r.ob(False, "IdentifyDistinct::new has %d top-level for loops" % len(loops))
-            r.find(fn.path, "loops", "IdentifyDistinct::new must consist of one loop per side; found %d loops" % len(loops),
+        olds, news, outer = _side_units(fn)
+        a = [_norm_loop(st, outer) for st in olds]
+        b = [_norm_loop(st, outer) for st in news]
+        uses_o = any(find_nodes(st, lambda n: n.get("k") == "path" and n.get("res", {}).get("name") == "old_range") for st in olds)
+        uses_n = any(find_nodes(st, lambda n: n.get("k") == "path" and n.get("res", {}).get("name") == "new_range") for st in news)
+        ok_src = bool(olds) and bool(news) and uses_o and uses_n
+        ok = a == b
+        r.ob(ok and ok_src, "IdentifyDistinct::new: %d old-only and %d new-only statements; identical up to old<->new: %s; each "
+             "consumes its range: %s" % (len(olds), len(news), ok, ok_src))
+        if not ok_src:
+            r.find(fn.path, "loop-ranges", "IdentifyDistinct::new must handle old_range in old-only statements and new_range in "
+                   "new-only statements (found %d / %d such statements; ranges used: %s / %s)" % (len(olds), len(news), uses_o, uses_n),
                    file=fn.file, line=fn.line)
             continue
-        # locals declared outside the loops keep identity (map, next_id, step)
-        outer = set()
-        for st in fn.hir["body"]["b"]["stmts"]:
-            if st["k"] == "let":
-                for b in find_nodes(st["pat"], lambda n: n["k"] == "bind"):
-                    outer.add(b["id"])
-        a = _norm_loop(loops[0], outer)
-        b = _norm_loop(loops[1], outer)
-        ok = a == b
-        srcs = [origin(l["scrut"]) for l in loops]
-        ok_src = srcs == ["IntoIterator::into_iter(old_range)", "IntoIterator::into_iter(new_range)"] or \
-            (len(srcs) == 2 and "old_range" in srcs[0] and "new_range" in srcs[1])
-        r.ob(ok and ok_src, "IdentifyDistinct::new: loops over %s; bodies identical up to old<->new: %s" % (srcs, ok))
         if not ok:
-            # locate first difference
-            i = next((i for i, (x, y) in enumerate(zip(a, b)) if x != y), min(len(a), len(b)))
-            r.find(fn.path, "sibling-loops", "the old-side and new-side loops of IdentifyDistinct::new differ (after renaming "
-                   "old<->new) near `%s` vs `%s`" % (a[max(0, i - 40):i + 40], b[max(0, i - 40):i + 40]),
-                   file=fn.file, line=loops[1]["line"])
-        if not ok_src:
-            r.find(fn.path, "loop-ranges", "the two loops must iterate old_range then new_range; found %s" % srcs,
-                   file=fn.file, line=loops[0]["line"])
+            sa, sb = "|".join(a), "|".join(b)
+            i = next((i for i, (x, y) in enumerate(zip(sa, sb)) if x != y), min(len(sa), len(sb)))
+            line = news[0].get("line", fn.line) if news else fn.line
+            for x, y, st in zip(a, b, news):
+                if x != y:
+                    line = st.get("line", line)
+                    break
+            r.find(fn.path, "sibling-loops", "the old-side and new-side halves of IdentifyDistinct::new differ (after renaming "
+                   "old<->new) near `%s` vs `%s`" % (sa[max(0, i - 40):i + 40], sb[max(0, i - 40):i + 40]),
+                   file=fn.file, line=line)
     return r
 
 
@@ -1210,8 +1394,16 @@ def rule_F8(prog):
             # absolute part: the file header is written inside the hunk loop, under header.take() == Some
             for label, ev in (("Display", ed), ("to_writer", ew)):
                 hs = [(g, s_) for g, s_ in ev if "---" in s_ or "+++" in s_]
-                good = bool(hs) and all(any("iter_hunks" in x and "is #1" in x for x in g) and
-                                        any("take(" in x and "header" in x and "is #1" in x for x in g) for g, s_ in hs)
+                def once_first(g):
+                    # header.take() is Some: the header is consumed by the first hunk;  or: the index of an
+                    # `.enumerate()` over the hunks is 0 and the header is Some
+                    if any("take(" in x and "header" in x and "is #1" in x for x in g):
+                        return True
+                    first = any(re.match(r"^(!0<\w+|\w+==0|0==\w+)$", x.replace(" ", "")) for x in g)
+                    enum = any("enumerate(" in x and "iter_hunks" in x and "is #1" in x for x in g)
+                    some = any("header" in x and "is #1" in x for x in g)
+                    return first and enum and some
+                good = bool(hs) and all(any("iter_hunks" in x and "is #1" in x for x in g) and once_first(g) for g, s_ in hs)
                 hk = [(g, s_) for g, s_ in ev if "<HUNK>" in s_]
                 good = good and bool(hk) and all(any("iter_hunks" in x and "is #1" in x for x in g) for g, s_ in hk)
                 r.instances += 1
@@ -1244,15 +1436,19 @@ def rule_F9(prog):
             a = unwrap(p["args"][0]) if p["args"] else None
             if not (isinstance(a, dict) and a.get("k") == "tup" and len(a["es"]) == 2):
                 bad.append("push of %s" % origin(a))
-                continue
+        # every (flag, segment) pair built in push_values, whether pushed directly or produced by a closure that feeds
+        # `extend`
+        pairs = find_nodes(fn.hir["body"], lambda n: n["k"] == "tup" and len(n["es"]) == 2 and
+                           (n.get("ty") or "").replace(" ", "").startswith("(bool,"))
+        for a in pairs:
             flag, seg = origin(a["es"][0]), origin(a["es"][1])
             if flag == "lit:false":
                 continue
             if flag == "Not(%s.ends_with_newline())" % seg:
                 continue
             bad.append("(%s, %s)" % (flag, seg))
-        ok = not bad and len(pushes) >= 2
-        r.ob(ok, "push_values pushes %s" % [(origin(unwrap(p["args"][0])["es"][0]) if p["args"] and unwrap(p["args"][0]).get("k") == "tup" else "?") for p in pushes])
+        ok = not bad and len(pairs) >= 2
+        r.ob(ok, "push_values stores %s" % [origin(a["es"][0]) for a in pairs])
         if not ok:
             r.find(fn.path, "emphasis-flag", "push_values must store (false, s) or (!seg.ends_with_newline(), seg); found %s" % (
                 bad or "%d pushes" % len(pushes)), file=fn.file, line=fn.line)
@@ -1267,7 +1463,12 @@ def rule_F9(prog):
         for v, a in arms.items():
             calls = find_nodes(a["body"], lambda n: n["k"] == "call" and origin(n["f"]).endswith("push_values"))
             flags = [origin(c["args"][2]) for c in calls if len(c["args"]) > 2]
-            sides = [(origin(c["args"][0]), origin(c["args"][3])) for c in calls if len(c["args"]) > 3]
+            if not calls:
+                # the arm only selects what to push (`=> (true, Some(run), None)`); the flag is the bool of that tuple
+                body = unwrap(a["body"])
+                if isinstance(body, dict) and body.get("k") == "tup":
+                    flags = [origin(x) for x in body["es"] if (unwrap(x) or {}).get("k") == "lit" and
+                             (unwrap(x).get("src") in ("true", "false"))]
             want = "lit:false" if v == "Equal" else "lit:true"
             ok = bool(flags) and all(f == want for f in flags)
             r.instances += 1
@@ -1280,6 +1481,24 @@ def rule_F9(prog):
         vs = set()
         for e in early:
             vs |= set((variant_of_pat(e["pat"]) or "").split("|"))
+        # or a match on the tag (tuple) whose non-Replace arms return: `(DiffTag::Equal, ..) | .. => return plain(..)`
+        for mn in find_nodes(fn.hir["body"], lambda n: n["k"] == "match"):
+            for a in mn["arms"]:
+                body = unwrap(a["body"])
+                while isinstance(body, dict) and body.get("k") == "block" and not body["b"].get("expr") and len(body["b"]["stmts"]) == 1 \
+                        and body["b"]["stmts"][0].get("k") in ("expr", "semi"):
+                    body = unwrap(body["b"]["stmts"][0]["e"])
+                if not (isinstance(body, dict) and body.get("k") == "ret"):
+                    continue
+                pats = a["pat"]["pats"] if a["pat"].get("k") == "or" else [a["pat"]]
+                for p_ in pats:
+                    while isinstance(p_, dict) and p_.get("k") == "ref":
+                        p_ = p_["pat"]
+                    if isinstance(p_, dict) and p_.get("k") == "tuple" and p_["pats"]:
+                        p_ = p_["pats"][0]
+                    v_ = variant_of_pat(p_)
+                    if v_:
+                        vs |= set(v_.split("|"))
         ok = {"Equal", "Insert", "Delete"} <= vs
         r.instances += 1
         r.ob(ok, "iter_inline_changes returns early for first-level tags %s" % sorted(vs))
@@ -1290,11 +1509,29 @@ def rule_F9(prog):
 
 
 # ---------------------------------------------------------------- F10
-def _lets(fn):
+def _lets(fn, extra=None):
+    """{local id: initialiser}; `extra` is a (specialised) subtree whose lets take precedence."""
     lets = {}
     for st in find_nodes(fn.hir["body"], lambda n: n.get("k") == "let" and isinstance(n.get("pat"), dict) and n["pat"].get("k") == "bind"):
         if st.get("init"):
             lets[st["pat"]["id"]] = st["init"]
+    if extra is not None:
+        for st in find_nodes(extra, lambda n: n.get("k") == "let" and isinstance(n.get("pat"), dict) and n["pat"].get("k") == "bind"):
+            if st.get("init"):
+                lets[st["pat"]["id"]] = st["init"]
+    # `let (a, b) = e;`: a is e.0 (or the component itself when e is a tuple expression)
+    for scope in [fn.hir["body"]] + ([extra] if extra is not None else []):
+        for st in find_nodes(scope, lambda n: n.get("k") == "let" and isinstance(n.get("pat"), dict) and n["pat"].get("k") == "tuple"):
+            init = unwrap(st.get("init"))
+            if not isinstance(init, dict):
+                continue
+            for i, sp in enumerate(st["pat"]["pats"]):
+                if sp.get("k") != "bind":
+                    continue
+                if init.get("k") == "tup" and len(init["es"]) == len(st["pat"]["pats"]):
+                    lets[sp["id"]] = init["es"][i]
+                else:
+                    lets[sp["id"]] = {"k": "field", "base": init, "name": str(i), "line": st.get("line", 0)}
     return lets
 
 
@@ -1333,29 +1570,78 @@ LAST_FORMS = ("ops[(ops.len()-lit:1)]", "ops.last().unwrap()", "ops.last().copie
               "ops.iter().next_back().unwrap()")
 
 
+def _norm_ranges(o):
+    """`x.as_tag_tuple().1` is `x.old_range()`, `.2` is `x.new_range()`."""
+    o = re.sub(r"\.as_tag_tuple\(\)\.1\b", ".old_range()", o)
+    o = re.sub(r"\.as_tag_tuple\(\)\.2\b", ".new_range()", o)
+    return o
+
+
+def _hunk_range_parts(prog, e, lets, depth=0):
+    """(start origin, end origin) of an expression that builds a UnifiedDiffHunkRange: the tuple-struct constructor, a
+    struct literal (fields in declaration order) or a private constructor function whose body is one of those."""
+    e = unwrap(e)
+    if not isinstance(e, dict) or depth > 2:
+        return None
+    if e.get("k") == "path" and e.get("res", {}).get("k") == "local" and e["res"]["id"] in lets:
+        return _hunk_range_parts(prog, lets[e["res"]["id"]], lets, depth)
+    if e.get("k") == "struct" and e.get("adt") == "udiff::UnifiedDiffHunkRange":
+        a = prog.adts.get("udiff::UnifiedDiffHunkRange")
+        order = [f["name"] for f in a["variants"][0]["fields"]] if a else []
+        f = {x["name"]: x["e"] for x in e["fields"]}
+        if len(order) == 2 and set(order) == set(f):
+            return tuple(_norm_ranges(origin_deep(f[n], lets)) for n in order)
+        return None
+    if e.get("k") == "call":
+        f = unwrap(e["f"])
+        res = (f.get("res") or {}) if isinstance(f, dict) and f.get("k") == "path" else {}
+        if res.get("dk", "").startswith("Ctor") and res.get("path", "").endswith("UnifiedDiffHunkRange") and len(e["args"]) == 2:
+            return tuple(_norm_ranges(origin_deep(a, lets)) for a in e["args"])
+        g = prog.fn(res.get("path", "")) if res.get("path") else None
+        if g is None and res.get("path"):
+            cands = [c for c in prog.find(res["path"]) if c.hir]
+            g = cands[0] if len(cands) == 1 else None
+        if g is not None and g.hir and g.hir.get("body"):
+            body = unwrap(g.hir["body"])
+            while isinstance(body, dict) and body.get("k") == "block" and body["b"].get("expr"):
+                if any(st.get("k") != "let" for st in body["b"]["stmts"]):
+                    return None
+                body = unwrap(body["b"]["expr"])
+            inner = _hunk_range_parts(prog, body, _lets(g), depth + 1)
+            if inner is None:
+                return None
+            amap = {}
+            for pp, a in zip(g.hir["params"], e["args"]):
+                nm = pp["pat"].get("name")
+                if nm:
+                    amap[nm] = _norm_ranges(origin_deep(a, lets))
+            if not amap:
+                return inner
+            rx = r"(?<![\w.])(%s)\b" % "|".join(re.escape(k) for k in amap)
+            return tuple(re.sub(rx, lambda mm: amap[mm.group(1)], x) for x in inner)
+    return None
+
+
 def rule_F10(prog):
     r = RuleResult("F10", "UnifiedHunkHeader::new takes the old/new start from the FIRST op of the group and the old/new end "
                           "from the LAST op, old extents from old_range() and new extents from new_range()")
     if "text" not in prog.features:
         return r
     for fn in prog.find("udiff::UnifiedHunkHeader::new"):
-        lets = {}
-        for st in find_nodes(fn.hir["body"], lambda n: n.get("k") == "let" and isinstance(n.get("pat"), dict) and n["pat"].get("k") == "bind"):
-            if st.get("init"):
-                lets[st["pat"]["id"]] = st["init"]
+        lets = _lets(fn)
         lits = find_nodes(fn.hir["body"], lambda n: n["k"] == "struct" and n.get("adt") == "udiff::UnifiedHunkHeader")
         r.instances += 1
         if len(lits) != 1:
             r.ob(False, "UnifiedHunkHeader::new: %d header literals" % len(lits))
             r.find(fn.path, "no-literal", "UnifiedHunkHeader::new does not build exactly one UnifiedHunkHeader", file=fn.file, line=fn.line)
             continue
-        f = {x["name"]: origin_deep(x["e"], lets) for x in lits[0]["fields"]}
+        fe = {x["name"]: x["e"] for x in lits[0]["fields"]}
         problems = []
         for side in ("old", "new"):
-            got = f.get(side + "_range", "?")
-            ok = any(got == "udiff::UnifiedDiffHunkRange(%s.%s_range().start,%s.%s_range().end)" % (a, side, b, side) or
-                     got == "UnifiedDiffHunkRange(%s.%s_range().start,%s.%s_range().end)" % (a, side, b, side)
-                     for a in FIRST_FORMS for b in LAST_FORMS)
+            parts = _hunk_range_parts(prog, fe.get(side + "_range"), lets)
+            got = parts if parts is not None else origin_deep(fe.get(side + "_range"), lets)
+            ok = parts is not None and any(parts == ("%s.%s_range().start" % (a, side), "%s.%s_range().end" % (b, side))
+                                           for a in FIRST_FORMS for b in LAST_FORMS)
             r.instances += 1
             r.ob(ok, "UnifiedHunkHeader.%s_range = %s" % (side, got))
             if not ok:
@@ -1483,17 +1769,182 @@ def rule_F12(prog):
 
 
 # ---------------------------------------------------------------- F13 / F14 / F15 / F16
+def _tag_test(e, known, lets, depth=0):
+    """If `e` tests the tag of an op whose tag is known (`this_op.tag() == DiffTag::Insert`, possibly through a `let`),
+    return its truth value, else None."""
+    e = unwrap(e)
+    if not isinstance(e, dict) or depth > 6:
+        return None
+    if e.get("k") == "path" and e.get("res", {}).get("k") == "local" and e["res"]["id"] in lets:
+        return _tag_test(lets[e["res"]["id"]], known, lets, depth + 1)
+    if e.get("k") == "unary" and e.get("op") == "Not":
+        v = _tag_test(e["x"], known, lets, depth + 1)
+        return None if v is None else (not v)
+    if e.get("k") == "binary" and e["op"] in ("==", "!="):
+        for a, b in ((e["l"], e["r"]), (e["r"], e["l"])):
+            a, b = unwrap(a), unwrap(b)
+            if isinstance(a, dict) and a.get("k") == "mcall" and a["name"] == "tag" and isinstance(b, dict) and b.get("k") == "path":
+                who = origin_deep(a["recv"], lets)
+                var = (b.get("res") or {}).get("path", "").rsplit("::", 1)[-1]
+                if who in known and var in ("Equal", "Insert", "Delete", "Replace"):
+                    return (known[who] == var) == (e["op"] == "==")
+    if e.get("k") == "match" and len(e.get("arms", [])) == 2:
+        # matches!(x.tag(), DiffTag::V)
+        sc = unwrap(e["scrut"])
+        if isinstance(sc, dict) and sc.get("k") == "mcall" and sc["name"] == "tag":
+            who = origin_deep(sc["recv"], lets)
+            vals = [unwrap(a["body"]) for a in e["arms"]]
+            if who in known and all(isinstance(v, dict) and v.get("k") == "lit" and v.get("src") in ("true", "false") for v in vals):
+                pats = e["arms"][0]["pat"]
+                pats = pats["pats"] if pats.get("k") == "or" else [pats]
+                hit = known[who] in [variant_of_pat(x) for x in pats]
+                return (vals[0]["src"] == "true") == hit
+    return None
+
+
+def _const_of(node):
+    """('tag', Variant) / ('bool', b) for a constant HIR expression, else None."""
+    n = unwrap(node)
+    if isinstance(n, dict) and n.get("k") == "path":
+        pth = (n.get("res") or {}).get("path", "")
+        if pth.startswith((DIFFTAG + "::", CHANGETAG + "::")):
+            return ("tag", pth.rsplit("::", 1)[-1])
+    if isinstance(n, dict) and n.get("k") == "lit" and n.get("src") in ("true", "false"):
+        return ("bool", n["src"] == "true")
+    return None
+
+
+def _specialise(node, known, lets, known_locals=None):
+    """Copy of a HIR subtree in which `if` expressions that test a known tag are replaced by the branch taken; with
+    `known_locals` ({local id: constant expression passed by the caller}) also `match x` / `if x` on such a local, and
+    every other use of the local is replaced by the constant."""
+    if isinstance(node, list):
+        return [_specialise(x, known, lets, known_locals) for x in node]
+    if not isinstance(node, dict):
+        return node
+    if known_locals:
+        if node.get("k") == "path" and node.get("res", {}).get("k") == "local" and node["res"]["id"] in known_locals:
+            return known_locals[node["res"]["id"]]
+        if node.get("k") == "match":
+            sc = unwrap(node["scrut"])
+            if isinstance(sc, dict) and sc.get("k") == "path" and sc.get("res", {}).get("k") == "local" and sc["res"]["id"] in known_locals:
+                c = _const_of(known_locals[sc["res"]["id"]])
+                if c and c[0] == "tag":
+                    for a in node["arms"]:
+                        if a.get("guard"):
+                            break
+                        pk = a["pat"].get("k")
+                        vs = variant_of_pat(a["pat"])
+                        if (vs and c[1] in vs.split("|")) or pk in ("wild", "bind"):
+                            return _specialise(a["body"], known, lets, known_locals)
+                        if not vs:
+                            break
+        if node.get("k") == "if":
+            cnd = unwrap(node["c"])
+            neg = False
+            if isinstance(cnd, dict) and cnd.get("k") == "unary" and cnd.get("op") == "Not":
+                cnd, neg = unwrap(cnd["x"]), True
+            if isinstance(cnd, dict) and cnd.get("k") == "path" and cnd.get("res", {}).get("k") == "local" and cnd["res"]["id"] in known_locals:
+                c = _const_of(known_locals[cnd["res"]["id"]])
+                if c and c[0] == "bool":
+                    take = c[1] != neg
+                    if take:
+                        return _specialise(node["t"], known, lets, known_locals)
+                    if node.get("f"):
+                        return _specialise(node["f"], known, lets, known_locals)
+                    return {"k": "tup", "es": [], "line": node.get("line", 0)}
+    if node.get("k") == "if":
+        v = _tag_test(node["c"], known, lets)
+        if v is True:
+            return _specialise(node["t"], known, lets, known_locals)
+        if v is False:
+            if node.get("f"):
+                return _specialise(node["f"], known, lets, known_locals)
+            return {"k": "tup", "es": [], "line": node.get("line", 0)}
+    return {k: (_specialise(v, known, lets, known_locals) if isinstance(v, (dict, list)) and k not in ("res", "tyj", "gargs") else v)
+            for k, v in node.items()}
+
+
+def _call_target(prog, call):
+    """(callee Fn or None, argument nodes incl. receiver) of a HIR call / method call."""
+    if call["k"] == "mcall":
+        path = call.get("method") or ""
+        args = [call["recv"]] + list(call["args"])
+    else:
+        f = unwrap(call["f"])
+        path = (f.get("res") or {}).get("path", "") if isinstance(f, dict) and f.get("k") == "path" else ""
+        args = list(call["args"])
+    g = prog.fn(path) if path else None
+    if g is None and path:
+        cands = [c for c in prog.find(path) if c.hir and c.kind != "Closure"]
+        g = cands[0] if len(cands) == 1 else None
+    return g, args
+
+
+def _call_consts(g, args):
+    """{parameter binding id: constant argument node} for the tag / bool constants a call passes."""
+    out = {}
+    for pp, a in zip(g.hir["params"], args):
+        if pp["pat"].get("k") == "bind" and _const_of(a) is not None:
+            out[pp["pat"]["id"]] = unwrap(a)
+    return out
+
+
+def _tuple_lets(node):
+    """{local id: component initialiser} for `let (a, b) = (x, y);`"""
+    out = {}
+    for st in find_nodes(node, lambda n: n.get("k") == "let" and isinstance(n.get("pat"), dict) and n["pat"].get("k") == "tuple"):
+        init = unwrap(st.get("init"))
+        if isinstance(init, dict) and init.get("k") == "tup" and len(init["es"]) == len(st["pat"]["pats"]):
+            for sp, x in zip(st["pat"]["pats"], init["es"]):
+                if sp.get("k") == "bind":
+                    out[sp["id"]] = x
+    return out
+
+
+def _caller_consts(prog, fn):
+    """The distinct constant-argument maps ({param id: node}) of all call sites of the private function `fn`."""
+    if fn.public:
+        return []
+    out = {}
+    for g in prog.user_fns():
+        if not g.hir or not g.hir.get("body") or g.kind == "Closure":
+            continue
+        for call in find_nodes(g.hir["body"], lambda n: n["k"] in ("call", "mcall")):
+            tgt, args = _call_target(prog, call)
+            if tgt is not fn:
+                continue
+            consts = _call_consts(fn, args)
+            key = tuple(sorted((k, origin(v)) for k, v in consts.items()))
+            out[key] = consts
+    return [out[k] for k in sorted(out)]
+
+
 def _tag_pair_arms(fn):
-    """Arms of `match (a.tag(), b.tag())` in compact.rs: [(tags tuple, arm)]"""
+    """Arms of `match (a.tag(), b.tag())` in compact.rs: [(tags tuple, arm, match node)].  An arm that covers several tag
+    pairs (or-pattern) is returned once per pair, its body specialised for that pair (`if this_op.tag() == ..` resolved)."""
     out = []
+    lets = _single_assignment_lets(fn.hir["body"])
     for mnode in find_nodes(fn.hir["body"], lambda n: n["k"] == "match"):
+        sc = unwrap(mnode["scrut"])
+        who = [None, None]
+        if isinstance(sc, dict) and sc.get("k") == "tup" and len(sc["es"]) == 2:
+            for i, x in enumerate(sc["es"]):
+                x = unwrap(x)
+                if isinstance(x, dict) and x.get("k") == "mcall" and x["name"] == "tag":
+                    who[i] = origin_deep(x["recv"], lets)
         for a in mnode["arms"]:
             pats = a["pat"]["pats"] if a["pat"].get("k") == "or" else [a["pat"]]
             for p in pats:
                 if p.get("k") == "tuple" and len(p["pats"]) == 2:
                     t = tuple(variant_of_pat(x) for x in p["pats"])
                     if all(t):
-                        out.append((t, a, mnode))
+                        arm = a
+                        if len(pats) > 1 and all(who):
+                            known = {who[0]: t[0], who[1]: t[1]}
+                            arm = dict(a)
+                            arm["body"] = _specialise(a["body"], known, lets)
+                        out.append((t, arm, mnode))
     return out
 
 
@@ -1509,7 +1960,7 @@ def rule_F13(prog):
                 grows = find_nodes(arm["body"], lambda n: n["k"] == "mcall" and n["name"] in ("grow_right", "grow_left"))
                 r.instances += 1
                 want = "new_range" if tags[0] == "Insert" else "old_range"
-                lets = _lets(fn)
+                lets = _lets(fn, arm["body"])
                 got = [origin_deep(g["args"][0], lets) for g in grows if g["args"]]
                 ok = bool(got) and all(re.search(r"\.%s\(\)\.len\(\)$" % want, x) for x in got)
                 r.ob(ok, "%s arm (%s, %s): grows by %s" % (fn.name, tags[0], tags[1], got))
@@ -1608,14 +2059,19 @@ def rule_F15(prog):
                     problems.append("OccupiedEntry::insert(%s) (line %d)" % (v, t["line"]))
                 else:
                     occ_none += 1
-        for b in m.blocks:
-            for s_ in b["stmts"]:
-                if s_["k"] == "assign" and "deref" in s_["p"]["proj"]:
-                    v = term_str(m.expand(m.resolve_rvalue(s_["rv"])))
-                    if "None" in v:
-                        occ_none += 1
-                    elif "Some" in v:
-                        problems.append("an existing entry is set to %s (line %d)" % (v, s_["line"]))
+            if p.startswith("std::collections::hash_map::Entry") and p.rsplit("::", 1)[-1] in ("or_insert", "or_insert_with"):
+                vac += 1        # stores only when the entry is vacant
+        # stores through a reference to an existing entry: in the body and in its closures (`and_modify(|v| *v = None)`)
+        bodies = [m] + [g.mir for g in prog.fn_list if g.kind == "Closure" and g.mir and g.path.startswith(fn.path + "::{closure")]
+        for mm in bodies:
+            for b in mm.blocks:
+                for s_ in b["stmts"]:
+                    if s_["k"] == "assign" and "deref" in s_["p"]["proj"]:
+                        v = term_str(mm.expand(mm.resolve_rvalue(s_["rv"])))
+                        if "None" in v:
+                            occ_none += 1
+                        elif "Some" in v:
+                            problems.append("an existing entry is set to %s (line %d)" % (v, s_["line"]))
         if vac < 1:
             problems.append("no first-sighting store through a vacant entry")
         if occ_none < 1:
